@@ -308,7 +308,10 @@ def gen(args) -> list:
                 for a in vals:
                     row = []
                     for b in vals:
-                        res = [_cmp(lambda a=a, b=b: a.compare_to(b)), _cmp(lambda a=a, b=b: a < b), _cmp(lambda a=a, b=b: a >= b)]
+                        # compare_to first (its sign is the order); every operator is asked, so that one of them answering
+                        # across calendars while the others refuse shows as "mixed" (8)
+                        res = [_cmp(lambda a=a, b=b: a.compare_to(b)), _cmp(lambda a=a, b=b: a < b), _cmp(lambda a=a, b=b: a >= b),
+                               _cmp(lambda a=a, b=b: a <= b), _cmp(lambda a=a, b=b: a > b)]
                         if any(x is None for x in res):
                             row.append(RAISED if all(x is None for x in res) else 8)
                         else:
